@@ -1,1 +1,90 @@
-From MoPep Require Import Model.Base.
+(* C10 - canonical peptide pool = exact in-silico digest.  Property theorems only. *)
+From Coq Require Import ZArith List Bool.
+From MoPep Require Import Model.Base Model.Rule Model.Digest Model.ExpasyRef Gen.Expasy Gen.Bio.
+From MoPep Require Import Proofs.DigestProofs Proofs.ExpasyProofs.
+Import ListNotations.
+
+(* --- obligations over the tables regenerated from /repo on every run --- *)
+
+(* every regular expression of EXPASY_RULES lies in the translated fragment *)
+Theorem rules_wellformed : forallb (fun nr => rule_ok (snd nr)) site_rules = true.
+Proof. exact rules_wellformed_proof. Qed.
+Print Assumptions rules_wellformed.
+
+(* the code's site rules are exactly the ExPASy reference rules *)
+Theorem rules_match_reference : site_rules = reference_rules.
+Proof. exact rules_match_reference_proof. Qed.
+Print Assumptions rules_match_reference.
+
+(* EXPASY_RULES2 (range patterns) are, alternative by alternative, the flattening
+   look-behind ++ centre ++ look-ahead of EXPASY_RULES: "range patterns pair with sites" *)
+Theorem range_rules_flatten : range_rules = map (fun nr => (fst nr, flatten_rule (snd nr))) site_rules.
+Proof. exact range_rules_flatten_proof. Qed.
+Print Assumptions range_rules_flatten.
+
+(* Biopython's weight table is exactly representable at 1e-4 (masses are modelled exactly) *)
+Theorem weights_exact_ok : weights_exact = true.
+Proof. exact weights_exact_proof. Qed.
+Print Assumptions weights_exact_ok.
+
+(* --- the site semantics --- *)
+
+Theorem sites_are_rule_sites : forall r exc s j,
+  In j (sites r exc s) <->
+  is_site r s j /\ match exc with None => True | Some e => ~ is_site e s j end.
+Proof. exact sites_spec. Qed.
+Print Assumptions sites_are_rule_sites.
+
+Theorem sites_strictly_increasing : forall r exc s, incr_from 0 (sites r exc s).
+Proof. exact sites_increasing. Qed.
+Print Assumptions sites_strictly_increasing.
+
+(* independence of partitioning: cut s = a ++ b anywhere; the sites of the whole are the sites of
+   each part examined with reach_b residues of left and reach_a residues of right context *)
+Theorem sites_partition_independent : forall r exc a b,
+  sites r exc (a ++ b) =
+  sites_ctx r exc [] a (firstn (reach_a r exc) b) 0 ++
+  sites_ctx r exc (firstn (reach_b r exc) (rev a)) b [] (length a).
+Proof. exact sites_partition. Qed.
+Print Assumptions sites_partition_independent.
+
+Theorem sites_window : forall r exc s rl rt i,
+  sites_ctx r exc rl s rt i =
+  sites_ctx r exc (firstn (reach_b r exc) rl) s (firstn (reach_a r exc) rt) i.
+Proof. exact sites_ctx_window. Qed.
+Print Assumptions sites_window.
+
+(* --- digestion and the pool --- *)
+
+Theorem cleave_is_declarative_digest : forall wt water lim r exc nf s p,
+  In p (cleave wt water lim r exc nf s) <-> Digest_product wt water lim r exc nf s p.
+Proof. exact cleave_spec. Qed.
+Print Assumptions cleave_is_declarative_digest.
+
+Theorem cleave_monotone_in_miscleavage : forall wt water lim1 lim2 r exc nf s p,
+  (lim_k lim1 <= lim_k lim2)%Z ->
+  lim_min_mw4 lim1 = lim_min_mw4 lim2 -> lim_min_len lim1 = lim_min_len lim2 ->
+  lim_max_len lim1 = lim_max_len lim2 ->
+  In p (cleave wt water lim1 r exc nf s) -> In p (cleave wt water lim2 r exc nf s).
+Proof. exact cleave_mono_k. Qed.
+Print Assumptions cleave_monotone_in_miscleavage.
+
+Theorem pool_is_union_of_digests_and_I2L_images : forall wt water lim r exc prots q,
+  In q (pool wt water lim r exc prots) <->
+  exists pr p, In pr prots /\ In p (cleave wt water lim r exc (snd pr) (prep (fst pr))) /\
+               (q = p \/ q = i2l p).
+Proof. exact pool_spec. Qed.
+Print Assumptions pool_is_union_of_digests_and_I2L_images.
+
+Theorem pool_closed_under_I2L : forall wt water lim r exc prots q,
+  In q (pool wt water lim r exc prots) -> In (i2l q) (pool wt water lim r exc prots).
+Proof. exact pool_closed_I2L. Qed.
+Print Assumptions pool_closed_under_I2L.
+
+(* the model-level statement of defect D14: computing sites node by node WITHOUT context
+   (what the graph engine does for the exception) is not the site set of the whole sequence *)
+Theorem nodewise_exception_refuted :
+  exists r e a b, sites r (Some e) (a ++ b) <>
+                  sites r (Some e) a ++ map (fun j => (j + length a)%nat) (sites r (Some e) b).
+Proof. exact nodewise_exception_refuted_proof. Qed.
+Print Assumptions nodewise_exception_refuted.
